@@ -214,7 +214,7 @@ void gen_lp_family(Tape &t, const GenOpts &o, int family, GenLP &out) {
   out = GenLP();
   Model &m = out.m;
   int big = o.bigness >= 2 ? (int)t.below(3) : std::min(o.bigness, (int)t.below(2));
-  static const char *names[] = {"F-rand", "F-opt", "F-inf", "F-face", "F-unb", "F-ill", "F-cyc", "F-shape", "F-fixb", "F-dup"};
+  static const char *names[] = {"F-rand", "F-opt", "F-inf", "F-face", "F-unb", "F-ill", "F-cyc", "F-shape", "F-fixb", "F-dup", "F-cover"};
   out.family = names[family % F_NFAM];
   switch (family % F_NFAM) {
   case F_RAND: {
@@ -428,6 +428,32 @@ void gen_lp_family(Tape &t, const GenOpts &o, int family, GenLP &out) {
     out.family += which == 0 ? "/beale" : "/kuhn";
     break;
   }
+  case F_COVER: {
+    // knapsack-cover / packing LPs over boxed columns with small non-negative integer data: the dual simplex
+    // passes bound-flip breakpoints of boxed columns (long-step ratio test), the primal one flips bounds
+    m = Model();
+    bool cover = !t.chance(1, 4);
+    m.objsense = cover ? 1 : -1;
+    int n = 2 + (int)t.below((uint32_t)std::max(1, std::min(o.maxn, 9) - 1));
+    int mm = 1 + (int)t.below((uint32_t)std::max(1, std::min(o.maxm, 4)));
+    for (int j = 0; j < n; j++) {
+      Col c;
+      c.lo = 0;
+      c.up = t.chance(1, 6) ? PINF() : Q(1 + (long)t.below(4));
+      c.obj = Q((long)t.below(10));
+      m.cols.push_back(c);
+    }
+    for (int i = 0; i < mm; i++) {
+      Row r;
+      for (int j = 0; j < n; j++) { long a = (long)t.below(10); if (a && !t.chance(1, 3)) r.a[j] = Q(a); }
+      if (r.a.empty()) r.a[(int)t.below((uint32_t)n)] = 1;
+      r.sense = cover ? 'G' : 'L';
+      r.rhs = Q((long)t.below(cover ? 10 : 30));
+      m.rows.push_back(r);
+    }
+    out.family += cover ? "/cover" : "/packing";
+    break;
+  }
   case F_DUP: {
     // Duplicated (and negated / doubled) rows and duplicated columns with unit coefficients, every bound shape;
     // optimal by construction.  With o.minn >= 400 the LP is wide enough for the sparse crash basis, which
@@ -569,7 +595,7 @@ void gen_lp_family(Tape &t, const GenOpts &o, int family, GenLP &out) {
 void gen_lp(Tape &t, const GenOpts &o, GenLP &out) {
   // weights: opt 5, ill 3, face 2, inf 3, unb 1, cyc 1, shape 2, rand 2  (an exhausted tape gives F-opt)
   static const int fam[] = {F_OPT, F_OPT, F_OPT, F_ILL, F_INF, F_FACE, F_SHAPE, F_RAND, F_OPT, F_ILL, F_INF, F_FACE,
-                            F_SHAPE, F_RAND, F_UNB, F_CYC, F_OPT, F_ILL, F_INF, F_FIXB};
+                            F_SHAPE, F_RAND, F_UNB, F_CYC, F_OPT, F_ILL, F_INF, F_FIXB, F_COVER, F_COVER};
   gen_lp_family(t, o, fam[t.below(sizeof fam / sizeof fam[0])], out);
 }
 
